@@ -392,6 +392,11 @@ func mergeDirectives(previousDefinition *ast.DirectiveDefinition, newDefinition 
 		result.Description = newDefinition.Description
 	}
 
+	// a directive that one service lets be repeated and another does not has no single definition
+	if previousDefinition.IsRepeatable != newDefinition.IsRepeatable {
+		return nil, fmt.Errorf("conflict in repeatability for directive %s", previousDefinition.Name)
+	}
+
 	// make sure the 2 directives can be placed on the same locations
 	var err error
 	result.Locations, err = mergeDirectiveLocations(result.Locations, newDefinition.Locations)
